@@ -115,4 +115,11 @@ PROPS["C17"] = {
     "nontrivial_min_tokens": 12,
 }
 
+PROPS["C12"] = {
+    "level_text": "The HNSW procedures (Add with oracle level, insertNode, searchLayer over an exact transcription of container/heap, selectNeighbors, pruneConnections, Remove, Flush with oracle election, search) are transcribed and compared structurally (every edge of every layer, entry point, max level) and by search results with the real index on adversarial histories (removal of the entry point, hubs, highest-level vertices). Per run the extracted oracle decides the three clauses on the implementation's answers: non-empty while a live vector exists, exact k-NN while at most 2M vectors have been resident and ef >= that, and bottom-layer reachability of every resident vertex on the implementation's own graph. The reachability clause is REFUTED by a theorem with a six-insertion witness (known finding); four defects that broke the first two clauses were repaired by fix: commits.",
+    "level_note": "Trusted: as C02 plus container/heap semantics (transcribed, exercised bit-for-bit), random levels and the Flush election taken as oracle inputs (the election is checked for admissibility). The exactness and non-emptiness clauses are decided by the oracle on every sampled search, not closed as Coq theorems (partial). sort.Slice beyond 12 elements with equal distances is order-dependent: the model then resynchronises on the snapshot (counted as weak).",
+    "correspondence": "hnsw_index.go/hnsw_index_search.go ~ Model.HNSW (checker 1200)",
+    "nontrivial_min_tokens": 40, "sub_max_len": 20000, "sub_per_checker": 4,
+}
+
 NOT_YET = {}
